@@ -644,11 +644,19 @@ def run_item(src_root, item, tier):
             # what serialize() produces comes back through a connection only if the receiving side reads a frame of EVERY announced length
             # (a distributed message with a one-byte code and no fields has length prefix 1): the framing contract of _read_message
             # (C02._read_message.*) is discharged here as well
-            from contracts import C02
+            from contracts import C02, C10
             C02.prove_framing(src_root, ex)
+            # ... and only if the sending side puts each frame on the wire in one piece (C10.send_message.one-piece)
+            C10.prove_after_closed(src_root, ex)
+            keep = []
             for ob in ex.obligations:
                 if ob.name.startswith('C02._read_message.'):
                     ob.name = 'C01.conn.receives-every-length.' + ob.name[len('C02._read_message.'):]
+                    keep.append(ob)
+                elif ob.name.startswith('C10.send_message.'):
+                    ob.name = 'C01.conn.' + ob.name[len('C10.'):]
+                    keep.append(ob)
+            ex.obligations[:] = keep
     except Unsupported as e:
         res.errors.append(f'{kind}:{arg}: unsupported: {e}')
     res.add(ex.obligations)
